@@ -138,9 +138,16 @@ def correspond(ctx):
         F = make_F(cvxopt, quads, o.xh, o.f0)
         desc = {'entry': 'cp', 'dims': pr.dims, 'G': pr.G, 'h': pr.h, 'A': pr.A, 'b': pr.b, 'f0': o.f0, 'quads': quads, 'x0': o.xh}
         evals += 1
-        try: r = quiet(solvers.cp, F, G, h, pr.dims, A, b, options={'show_progress': False})
+        # per-call tolerances (half of the calls ask for much more than the defaults: the answer is judged by what was asked)
+        opts_cp = {'show_progress': False}
+        if rng.random() < 0.5: opts_cp.update(feastol=1e-11, abstol=1e-11, reltol=1e-11)
+        try: r = quiet(solvers.cp, F, G, h, pr.dims, A, b, options=opts_cp)
         except Exception as e:
             if isinstance(e, ValueError) and 'Rank' in str(e): bump('cp:rank'); r = None
+            elif 'feastol' in opts_cp and isinstance(e, (ValueError, ArithmeticError)) and 'domain error' in str(e):
+                # tolerances far beyond the defaults: the iteration may break down numerically before reaching them (an iterate leaves the cone
+                # by rounding); no 'optimal' was returned, so nothing for this property to judge
+                bump('cp:tight-tolerance-breakdown'); r = None
             else: ctx.violation('c04:exception:cp:%s' % type(e).__name__, 'cp raised %s: %s' % (type(e).__name__, e), desc); r = None
         if r is not None:
             bump('cp:' + r['status'])
@@ -151,7 +158,7 @@ def correspond(ctx):
                 meta += [None] * (2 + len(quads))
                 lines.append('optimalcp x0=%s x=%s snl=%s sl=%s y=%s znl=%s zl=%s' % (
                     vec(o.xh), vec(mlist(r['x'])), vec(mlist(r['snl'])), vec(mlist(r['sl'])), vec(mlist(r['y'])), vec(mlist(r['znl'])), vec(mlist(r['zl']))))
-                meta.append(('cp', r, desc, (1e-7, 1e-7, 1e-6)))
+                meta.append(('cp', r, dict(desc, options=dict(opts_cp)), tolv(opts_cp)))
                 if pure_qp:
                     Q, q, _r = o.f0
                     P = matrix([a for col in Q for a in col], (o.n, o.n))
@@ -276,7 +283,7 @@ def correspond(ctx):
         else:
             ft = 10 * t[0]
             nonneg = all(a >= -1e-12 for a in r['snl']) and all(a >= -1e-12 for a in r['znl'])
-            gapok = float(d['gap']) <= 10 * t[1] or (float(d['pcost']) < 0 and float(d['gap']) <= 10 * t[2] * -float(d['pcost'])) or float(d['gap']) <= 1e-5 * (1 + abs(float(d['pcost'])))
+            gapok = float(d['gap']) <= 10 * t[1] or (float(d['pcost']) < 0 and float(d['gap']) <= 10 * t[2] * -float(d['pcost'])) or float(d['gap']) <= 100 * t[1] * (1 + abs(float(d['pcost'])))
             if pres > ft or dres > ft or not (d['slIn'] and d['zlIn'] and nonneg) or not gapok:
                 ctx.violation('c04:optimal-not-certified:cp', "cp returned 'optimal' but the KKT conditions of the original problem fail at the returned point: pres=%.3g dres=%.3g gap=%.3g slIn=%s zlIn=%s"
                               % (pres, dres, float(d['gap']), d['slIn'], d['zlIn']), dict(desc, checker=o_))
